@@ -83,17 +83,41 @@ def construction_sites(repo: Repo) -> List[Site]:
             )
             s = Site(m.rel, qualname(node), node, via, op, operands)
             # gating by a use_graph_primitive flag (computed, not listed)
-            p = parent(node)
-            while p is not None:
-                if isinstance(p, ast.If) and any(
-                    isinstance(n, ast.Name) and "use_graph" in n.id and "primitive" in n.id for n in ast.walk(p.test)
-                ):
-                    # must be in the body (true branch) of a positive test
-                    if _in_body(p, node) and _positive_flag_test(p.test):
-                        s.native_gated = True
-                p = parent(p)
+            s.native_gated = _gated(m, node, 3)
             sites.append(s)
     return sites
+
+
+def _gated_here(node: ast.AST) -> bool:
+    p = parent(node)
+    while p is not None and not isinstance(p, (ast.FunctionDef, ast.AsyncFunctionDef)):
+        if isinstance(p, ast.If) and any(
+            isinstance(n, ast.Name) and "use_graph" in n.id and "primitive" in n.id for n in ast.walk(p.test)
+        ):
+            # must be in the body (true branch) of a positive test
+            if _in_body(p, node) and _positive_flag_test(p.test):
+                return True
+        p = parent(p)
+    return False
+
+
+def _gated(m: Module, node: ast.AST, depth: int) -> bool:
+    """under a positive use_graph_*primitive test, directly or because the enclosing private module-level helper is only
+    ever called from such a position (helpers extracted from the gated branch)"""
+    if _gated_here(node):
+        return True
+    if depth == 0:
+        return False
+    p = parent(node)
+    while p is not None and not isinstance(p, (ast.FunctionDef, ast.AsyncFunctionDef)):
+        p = parent(p)
+    if p is None or not p.name.startswith("_") or not isinstance(parent(p), ast.Module):
+        return False
+    calls = [c for c in ast.walk(m.tree) if isinstance(c, ast.Call) and isinstance(c.func, ast.Name) and c.func.id == p.name]
+    uses = [n for n in ast.walk(m.tree) if isinstance(n, ast.Name) and n.id == p.name and isinstance(n.ctx, ast.Load)]
+    if not calls or len(uses) != len(calls):
+        return False  # never called, or passed around as a value
+    return all(_gated(m, c, depth - 1) for c in calls)
 
 
 def _in_body(ifnode: ast.If, node: ast.AST) -> bool:
